@@ -41,6 +41,9 @@ def cases(rng, tier):
     # the same query several times in a row on one object
     for c in gen.repeated_call_cases(rng, 8 if tier == "quick" else 60, ['kappa', 'dmax', 'delta'], gen.CLAMP_BAND[:8] if True else ()):
         yield c
+    # block-ordered chains with >= 18 neutral residues (a short neutral gap between the charged blocks, neutrals piled up at one end)
+    for sq in gen.block_arrangements(rng, 20 if tier == "quick" else 200):
+        yield Case(["q kappa " + sq, "q dmax " + sq, "q delta " + sq], {"kind": "block-ordered-many-neutrals"})
     # very long chains (> 1000 residues, lengths that are not round numbers)
     for sq in gen.very_long(rng, tier != "quick"):
         yield Case(["q %s %s%s" % (q.split(" ")[0], sq, "".join(" " + a for a in q.split(" ")[1:])) for q in ['kappa', 'delta']], {"kind": "very-long"})
